@@ -80,6 +80,53 @@ std::string Machine::next_key(const std::string &base) {
   return base + "#" + std::to_string(n);
 }
 
+mpz_class bv_wrap(const mpz_class &v, unsigned w) {
+  if (w == 0)
+    return v;
+  mpz_class r;
+  mpz_fdiv_r_2exp(r.get_mpz_t(), v.get_mpz_t(), w); // in [0, 2^w)
+  if (mpz_tstbit(r.get_mpz_t(), w - 1)) {
+    mpz_class m;
+    mpz_ui_pow_ui(m.get_mpz_t(), 2, w);
+    r -= m;
+  }
+  return r;
+}
+mpz_class bv_unsigned(const mpz_class &v, unsigned w) {
+  mpz_class r;
+  mpz_fdiv_r_2exp(r.get_mpz_t(), v.get_mpz_t(), w);
+  return r;
+}
+
+// BV profile: a linear constraint is only judged when no evaluation order and
+// no reading (modular or mathematical, signed) can disagree: the sum of the
+// absolute values of all terms and of the constant stays inside the signed
+// range of the (common) width of its variables
+static bool bv_cst_unambiguous(const Frame &f, const lin_cst_t &c) {
+  mpz_class acc = abs(to_mpz(c.expression().constant()));
+  unsigned w = 0;
+  for (auto it = c.expression().begin(), et = c.expression().end(); it != et; ++it) {
+    auto comp = *it;
+    auto ty = comp.second.get_type();
+    if (!ty.is_integer())
+      return false;
+    unsigned vw = ty.get_integer_bitwidth();
+    if (w == 0)
+      w = vw;
+    else if (w != vw)
+      return false;
+    const Value *v = f.st.get(comp.second);
+    if (!v || v->k != Value::INT)
+      return false;
+    acc += abs(to_mpz(comp.first) * v->i);
+  }
+  if (w == 0)
+    return true; // constant constraint
+  mpz_class lim;
+  mpz_ui_pow_ui(lim.get_mpz_t(), 2, w - 1);
+  return acc < lim;
+}
+
 bool Machine::eval_lin_exp(const Frame &f, const lin_exp_t &e, mpz_class &out) {
   out = to_mpz(e.constant());
   for (auto it = e.begin(), et = e.end(); it != et; ++it) {
@@ -101,6 +148,8 @@ bool Machine::eval_lin_exp(const Frame &f, const lin_exp_t &e, mpz_class &out) {
 
 int Machine::eval_lin_cst(const Frame &f, const lin_cst_t &c) {
   mpz_class v;
+  if (cfg.bv && !bv_cst_unambiguous(f, c))
+    return -1;
   if (!eval_lin_exp(f, c.expression(), v))
     return -1;
   switch (c.kind()) {
@@ -214,8 +263,8 @@ void Machine::init_scalars(Frame &f) {
       continue;
     auto ty = v.get_type();
     if (ty.is_integer()) {
-      f.st.set(v, Value::mk_int(sched.draw_int(
-                      *this, next_key("init:" + kv.first), (int)ty.get_integer_bitwidth())));
+      mpz_class d = sched.draw_int(*this, next_key("init:" + kv.first), (int)ty.get_integer_bitwidth());
+      f.st.set(v, Value::mk_int(cfg.bv ? bv_wrap(d, ty.get_integer_bitwidth()) : d));
     } else if (ty.is_bool()) {
       f.st.set(v, Value::mk_bool(sched.draw_bool(*this, next_key("init:" + kv.first))));
     } else if (ty.is_reference()) {
@@ -257,6 +306,11 @@ struct Exec : public crab::cfg::statement_visitor<label_t, number_t, varname_t> 
     return true;
   }
   void set_int(const var_t &v, const mpz_class &val) {
+    if (m.cfg.bv) {
+      auto ty = v.get_type();
+      f.st.set(v, Value::mk_int(ty.is_integer() ? bv_wrap(val, ty.get_integer_bitwidth()) : val));
+      return;
+    }
     if (too_big(val)) {
       m.outside("magnitude");
       return;
@@ -277,7 +331,7 @@ struct Exec : public crab::cfg::statement_visitor<label_t, number_t, varname_t> 
   int cond(const lin_cst_t &c) {
     int r = m.eval_lin_cst(f, c);
     if (r < 0)
-      m.outside("cannot evaluate constraint");
+      m.outside(m.cfg.bv ? "constraint could wrap around or cannot be evaluated" : "cannot evaluate constraint");
     return r;
   }
 
@@ -292,6 +346,10 @@ struct Exec : public crab::cfg::statement_visitor<label_t, number_t, varname_t> 
       b = to_mpz(s.right().constant());
     mpz_class r;
     using namespace crab::cfg;
+    if (m.cfg.bv) {
+      visit_bv(s, a, b);
+      return;
+    }
     switch (s.op()) {
     case BINOP_ADD:
       r = a + b;
@@ -358,6 +416,100 @@ struct Exec : public crab::cfg::statement_visitor<label_t, number_t, varname_t> 
           return;
         }
         mpz_fdiv_q_2exp(r.get_mpz_t(), a.get_mpz_t(), k);
+      }
+      break;
+    }
+    }
+    set_int(s.lhs(), r);
+  }
+
+  // two's-complement semantics at the width of the left-hand side. Operands are
+  // signed representatives; a constant operand is reduced modulo 2^w first
+  // (crab's wrapint does the same when the constant fits [-2^(w-1), 2^w-1];
+  // a constant outside that range is outside the model)
+  void visit_bv(bin_op_t &s, mpz_class a, mpz_class b) {
+    using namespace crab::cfg;
+    auto ty = s.lhs().get_type();
+    unsigned w = ty.is_integer() ? ty.get_integer_bitwidth() : 0;
+    if (w == 0) {
+      m.outside("bv: non-integer lhs");
+      return;
+    }
+    mpz_class lo, hi;
+    mpz_ui_pow_ui(hi.get_mpz_t(), 2, w);
+    mpz_ui_pow_ui(lo.get_mpz_t(), 2, w - 1);
+    if (!s.right().get_variable()) {
+      if (b < -lo || b >= hi) {
+        m.outside("bv: constant does not fit the width");
+        return;
+      }
+      b = bv_wrap(b, w);
+    }
+    a = bv_wrap(a, w);
+    mpz_class r;
+    switch (s.op()) {
+    case BINOP_ADD:
+      r = a + b;
+      break;
+    case BINOP_SUB:
+      r = a - b;
+      break;
+    case BINOP_MUL:
+      r = a * b;
+      break;
+    case BINOP_SDIV:
+    case BINOP_SREM:
+      if (b == 0) {
+        m.block_here();
+        return;
+      }
+      if (a == -lo && b == -1) {
+        m.outside("bv: signed division overflow");
+        return;
+      }
+      if (s.op() == BINOP_SDIV)
+        mpz_tdiv_q(r.get_mpz_t(), a.get_mpz_t(), b.get_mpz_t());
+      else
+        mpz_tdiv_r(r.get_mpz_t(), a.get_mpz_t(), b.get_mpz_t());
+      break;
+    case BINOP_UDIV:
+    case BINOP_UREM: {
+      if (b == 0) {
+        m.block_here();
+        return;
+      }
+      mpz_class ua = bv_unsigned(a, w), ub = bv_unsigned(b, w);
+      if (s.op() == BINOP_UDIV)
+        mpz_tdiv_q(r.get_mpz_t(), ua.get_mpz_t(), ub.get_mpz_t());
+      else
+        mpz_tdiv_r(r.get_mpz_t(), ua.get_mpz_t(), ub.get_mpz_t());
+      break;
+    }
+    case BINOP_AND:
+      r = a & b;
+      break;
+    case BINOP_OR:
+      r = a | b;
+      break;
+    case BINOP_XOR:
+      r = a ^ b;
+      break;
+    case BINOP_SHL:
+    case BINOP_LSHR:
+    case BINOP_ASHR: {
+      // shift amounts >= width are undefined on real machines
+      if (b < 0 || b >= w) {
+        m.outside("bv: shift amount");
+        return;
+      }
+      unsigned long k = b.get_ui();
+      if (s.op() == BINOP_SHL)
+        mpz_mul_2exp(r.get_mpz_t(), a.get_mpz_t(), k);
+      else if (s.op() == BINOP_ASHR)
+        mpz_fdiv_q_2exp(r.get_mpz_t(), a.get_mpz_t(), k);
+      else {
+        mpz_class ua = bv_unsigned(a, w);
+        mpz_fdiv_q_2exp(r.get_mpz_t(), ua.get_mpz_t(), k);
       }
       break;
     }
@@ -433,6 +585,14 @@ struct Exec : public crab::cfg::statement_visitor<label_t, number_t, varname_t> 
     mpz_class a;
     if (!get_int(s.src(), a))
       return;
+    if (m.cfg.bv) {
+      // trunc: low bits; sext: same signed value; zext: the unsigned value of the source
+      if (s.op() == CAST_ZEXT)
+        set_int(s.dst(), bv_unsigned(a, s.src_width()));
+      else
+        set_int(s.dst(), a);
+      return;
+    }
     unsigned w = std::min(s.src_width(), s.dst_width());
     mpz_class lim;
     mpz_ui_pow_ui(lim.get_mpz_t(), 2, w >= 1 ? w - 1 : 0);
@@ -1107,8 +1267,30 @@ mpz_class RandomScheduler::value_from(uint64_t r) {
   return mpz_class((long)g.range(-100000, 100000));
 }
 
-mpz_class RandomScheduler::draw_int(Machine &, const std::string &key, int) {
-  return value_from(hash_str(key, key_seed));
+mpz_class RandomScheduler::draw_int(Machine &, const std::string &key, int width) {
+  uint64_t h = hash_str(key, key_seed);
+  if (bv && width > 0) {
+    // BV profile: one draw in three lands near a pole of the width (signed
+    // min/max, unsigned max = -1, the middle of the unsigned range)
+    Rng g(mix64(h ^ 0xb5b5));
+    if (g.chance(1, 3)) {
+      mpz_class half;
+      mpz_ui_pow_ui(half.get_mpz_t(), 2, (unsigned)width - 1);
+      long d = (long)g.range(0, 3);
+      switch (g.below(4)) {
+      case 0:
+        return half - 1 - d; // signed max and below
+      case 1:
+        return -half + d; // signed min and above
+      case 2:
+        return mpz_class(-1 - d); // unsigned max and below
+      default:
+        return (half / 2) * (g.coin() ? 1 : -1) + d;
+      }
+    }
+    return bv_wrap(value_from(h), (unsigned)width);
+  }
+  return value_from(h);
 }
 
 bool RandomScheduler::draw_bool(Machine &, const std::string &key) {
